@@ -258,8 +258,8 @@ VARIANTS = [
         (B, "        leaves = [s for s in self._active_state_nodes if s.is_atomic or s.is_final or (not s.states)]\n", "        leaves = [s for s in self._active_state_nodes if s.is_atomic or s.is_final or (not s.states)]\n        self._primary_leaf = next(iter(self._active_state_nodes))\n")]),
     # ------------------------------------------------------------------ C17
     V("c17-write-before-verify", {"C17": "R2"}, edits=[
-        (CM, "    _verify_or_refuse(configs=configs, logic_code=logic_code, template=template, strict=not getattr(args, 'no_verify', False))\n", ""),
-        (CM, "    _write_output_files(args.file_count, paths, logic_code, runner_code)\n\ndef _polish_output", "    _write_output_files(args.file_count, paths, logic_code, runner_code)\n    _verify_or_refuse(configs=configs, logic_code=logic_code, template=template, strict=not getattr(args, 'no_verify', False))\n\ndef _polish_output")]),
+        (CM, "    _verify_or_refuse(configs=configs, logic_code=logic_code, runner_code=runner_code, file_count=args.file_count, template=template, strict=not getattr(args, 'no_verify', False))\n", ""),
+        (CM, "    _write_output_files(args.file_count, paths, logic_code, runner_code)\n\ndef _polish_output", "    _write_output_files(args.file_count, paths, logic_code, runner_code)\n    _verify_or_refuse(configs=configs, logic_code=logic_code, runner_code=runner_code, file_count=args.file_count, template=template, strict=not getattr(args, 'no_verify', False))\n\ndef _polish_output")]),
     V("c17-write-outside-writer", {"C17": "R1"}, edits=[
         (CM, "    logic_code, runner_code = _polish_output(logic_code, runner_code, json_paths=json_paths, template=template)\n", "    logic_code, runner_code = _polish_output(logic_code, runner_code, json_paths=json_paths, template=template)\n    paths['logic_file'].write_text(logic_code, encoding='utf-8')\n")]),
     V("c17-action-params-not-rendered", {"C17": "R4"}, edits=[
